@@ -114,7 +114,7 @@ pub fn row_leaf(kind: HashKind, nvf: u64, height: u64, cells: &[Felt]) -> Felt {
     let m: Vec<Felt> = cells.iter().map(|c| *c * r).collect();
     if m.len() == 1 {
         m[0]
-    } else if nvf >= height + 1 {
+    } else if nvf > height {
         poseidon_hash_many(&m)
     } else {
         let mut data = Vec::with_capacity(32 * m.len());
